@@ -1,7 +1,107 @@
 import ScVerif.Base.Line
-/-! Driver handler for C02 (stub: replaced by the property's owner). -/
-namespace ScVerif.C02
+import ScVerif.C02.Facts
+/-!
+Driver handler for C02.  Messages are integers (`wrapperspb.Int64Value` on the Go side, empty = 0).
 
-def handle (_toks : List String) : String := "!bad-op"
+Request:  `run <fixed:0|1> <init> <progs> <sched>`
+* init   `-` or `id:val,id:val`
+* progs  threads separated by `|`, operations by `;` (an empty thread is `-`); an operation is
+         `u/<id>/<V|C>/<expectAbsent>/<createIfAbsent>/<expect>/<check>/<f>` or `d/<id>/<allowMissing>/<expect>/<check>`
+         expect `-` or an integer; check `n` | `eq<k>` | `ne<k>` (fails with OutOfRange); f `s<k>` (set) | `a<k>` (add)
+* sched  `-` or comma separated thread ids; one entry = one atomic step of that thread
+
+Answer: `T0=[r,r,...]|T1=[...]|store=id:val,...|log=<n>|pc=<per thread i/c/m/d>` with r = `ok:<v>` | `ok:nil` | `err:<Code>`.
+-/
+namespace ScVerif.C02
+open ScVerif.Line
+
+def showErr : Err → String
+  | .aborted => "Aborted"
+  | .alreadyExists => "AlreadyExists"
+  | .failedPrecondition => "FailedPrecondition"
+  | .notFound => "NotFound"
+  | .unavailable => "Unavailable"
+  | .other 11 => "OutOfRange"
+  | .other n => s!"Other{n}"
+
+def showRes : Res Int → String
+  | .ok (some v) => s!"ok:{v}"
+  | .ok none => "ok:nil"
+  | .error e => s!"err:{showErr e}"
+
+def parseOptInt? (s : String) : Option (Option Int) :=
+  if s = "-" then some none else (parseInt? s).map some
+
+def parseCheck? (s : String) : Option (Option Int → Option Err) :=
+  if s = "n" then some (fun _ => none)
+  else if s.startsWith "eq" then
+    (parseInt? (s.drop 2).toString).map (fun k => fun old => if old = some k then none else some (.other 11))
+  else if s.startsWith "ne" then
+    (parseInt? (s.drop 2).toString).map (fun k => fun old => if old = some k then some (.other 11) else none)
+  else none
+
+def parseF? (s : String) : Option (Option Int → Int) :=
+  if s.startsWith "s" then (parseInt? (s.drop 1).toString).map (fun k => fun _ => k)
+  else if s.startsWith "a" then (parseInt? (s.drop 1).toString).map (fun k => fun old => old.getD 0 + k)
+  else none
+
+def parseOp? (s : String) : Option (Op Int) :=
+  match s.splitOn "/" with
+  | ["u", id, vc, ea, cia, ex, ck, f] => do
+    let id ← parseNat? id
+    let isV ← (if vc = "V" then some true else if vc = "C" then some false else none)
+    let ea ← parseBool? ea
+    let cia ← parseBool? cia
+    let ex ← parseOptInt? ex
+    let ck ← parseCheck? ck
+    let f ← parseF? f
+    pure (.upd ⟨id, isV, ea, cia, ex, ck, f⟩)
+  | ["d", id, am, ex, ck] => do
+    let id ← parseNat? id
+    let am ← parseBool? am
+    let ex ← parseOptInt? ex
+    let ck ← parseCheck? ck
+    pure (.del ⟨id, am, ex, fun b => ck (some b)⟩)
+  | _ => none
+
+def parseProg? (s : String) : Option (List (Op Int)) :=
+  if s = "-" || s = "" then some [] else (s.splitOn ";").mapM parseOp?
+
+def parseInit? (s : String) : Option (List (Nat × Int)) :=
+  if s = "-" || s = "" then some []
+  else (s.splitOn ",").mapM (fun kv =>
+    match kv.splitOn ":" with
+    | [k, v] => do
+      let k ← parseNat? k
+      let v ← parseInt? v
+      pure (k, v)
+    | _ => none)
+
+def parseSched? (s : String) : Option (List Nat) :=
+  if s = "-" || s = "" then some [] else (s.splitOn ",").mapM parseNat?
+
+def showPc : Pc Int → String
+  | .idle => "i"
+  | .uChange .. => "c"
+  | .uCommit .. => "m"
+  | .dTry .. => "d"
+
+/-- ids the harness uses: 0..9 -/
+def showStore (s : SStore Int) : String :=
+  ",".intercalate ((List.range 10).filterMap (fun i => (s i).map (fun v => s!"{i}:{v}")))
+
+def handle (toks : List String) : String :=
+  match toks with
+  | ["run", fixed, init, progs, sched] =>
+    match parseBool? fixed, parseInit? init, (progs.splitOn "|").mapM parseProg?, parseSched? sched with
+    | some fixed, some init, some progs, some sched =>
+      let s₀ : SStore Int := fun i => (init.find? (fun kv => kv.1 == i)).map (·.2)
+      let c := run fixed (initCfg s₀ (fun t => progs.getD t [])) sched
+      let ths := (List.range progs.length).map (fun t =>
+        s!"T{t}=[" ++ ",".intercalate ((c.threads t).done.map (fun r => showRes r.res)) ++ "]")
+      "|".intercalate ths ++ s!"|store={showStore (absS c.store)}|log={c.log.length}|pc=" ++
+        "".intercalate ((List.range progs.length).map (fun t => showPc (c.threads t).pc))
+    | _, _, _, _ => "!bad-op"
+  | _ => "!bad-op"
 
 end ScVerif.C02
